@@ -287,6 +287,9 @@ func (s *Server) Addr() net.Addr {
 	s.mu.RLock()
 	defer s.mu.RUnlock()
 
+	if s.listener == nil {
+		return nil // server is not serving yet
+	}
 	return s.listener.Addr()
 }
 
@@ -297,7 +300,10 @@ func (s *Server) Shutdown(ctx context.Context) error {
 	defer s.mu.Unlock()
 	s.isShutdown.Store(true)
 
-	err := s.listener.Close()
+	var err error
+	if s.listener != nil { // is nil when server has not been started
+		err = s.listener.Close()
+	}
 
 	timer := time.NewTimer(50 * time.Millisecond)
 	defer timer.Stop()
